@@ -88,7 +88,7 @@ def main(tier):
     import c02
     jobs += [(c02.job_poly, (n, it, axis, r, 1)) for n in (10, 11) for it in (3, 4) for axis in (0, 1) for r in (2, 6)]
     import c08
-    jobs += [(c08.job_fixed_map, (w, 6, 3, 3, 3, 3)) for w in ('drift', 'rflin', 'fpm')]      # relaxation is per bunch: every bunch of a train gets the drift, the RF kick and the damping/diffusion of a single bunch
+    jobs += [(c08.job_fixed_map, (w, 6, 3, 3, 3, 3)) for w in ('drift', 'rflin', 'fpm', 'idm')]      # relaxation is per bunch: every bunch of a train gets the drift, the RF kick and the damping/diffusion of a single bunch
     import mainparams
     jobs += [(mainparams.job_map_parameters, ('C04',))]      # O-main: the damping decrement main hands to the map: 2/(x*y*steps), inversely proportional to the configured step count
     # observation side: the reported bunch length / energy spread are the second moments of the profiles over the charge actually on the grid (whatever was lost before)
